@@ -55,6 +55,7 @@ Plan generate(uint64_t seed, uint64_t run, bool thorough) {
     if (p.get("nt") > 8 && !model && p.get("maxiter") > 40) p.set("maxiter", 40, 1);
     draw_schedule(r, p.sched, (int)p.get("nt"));
     draw_vary_params(r, p, 0.5);
+    p.set("nested", r.chance(0.2) ? 1 : 0, 0);
     p.set("valued", (!model && r.chance(0.2)) ? r.range(1, 2) : 0, 0);      // complex / 2x2 block valued system
     if (p.get("valued") && p.get("n") > 160) p.set("n", 160, 1);
     return p;
@@ -198,7 +199,14 @@ Result execute(const Plan &p) {
     if (p.get("x0") == 2) { x = gen::make_vector(n, (uint64_t)p.get("vseed") + 5, 0); for (long i = 0; i < n; ++i) x[i] *= 1e6; }
     double x0inf = max_abs(x), pamp = 1, plin = 0, pnrm = 1;
     size_t iters = 0; double resid = 0; std::string exc; size_t nlevels = 0; std::vector<double> pr(n, 0.0); double pnorm = 0; bool constructed = false;
-    sim::RunStatus st = world(nt, p.sched, [&]() {
+    // a fifth of the multi-threaded non-model worlds run the whole construct/solve from a thread of the caller's own parallel region:
+    // nested regions are serialised (every OpenMP runtime's default), the library's teams have one member while
+    // omp_get_max_threads() still reports nt - a legal situation in which the reported residual must still be the true one
+    // (not with the level-scheduled Gauss-Seidel / ILU solves at >= 4 configured threads: in that situation they relax only the rows of
+    //  thread 0 - recorded under C09, C09-nested-level-schedule - and a diverging iteration's recurrence residual drifts)
+    const bool nested = p.get("nested", 0) != 0 && nt >= 2 && !model && !(p.get("relax") <= 4 && nt >= 4);
+    if (nested) { res.counts["nested_caller_worlds"]++; res.faults["team_smaller_than_max_threads"]++; }
+    auto body = [&]() {
         try {
             gen::Csr Ac = A;
             Solver S(Ac.tie(), prm); constructed = true;
@@ -226,6 +234,11 @@ Result execute(const Plan &p) {
                 S.precond().apply(r, pr); long double s2 = 0; for (long i = 0; i < n; ++i) s2 += (long double)pr[i] * pr[i]; pnorm = (double)std::sqrt((double)s2);
             }
         } catch (const std::exception &e) { exc = e.what(); }
+    };
+    sim::RunStatus st = world(nt, p.sched, [&]() {
+        if (!nested) { body(); return; }
+        #pragma omp parallel
+        { if (omp_get_thread_num() == omp_get_num_threads() - 1) body(); }
     });
     res.absorb(st); res.deviations = st.deviations;
     if (st.status) res.fail(sig("world-terminates", "deadlock-or-budget", st.blocked));
